@@ -1,6 +1,29 @@
+use vcore::front::{self, Project};
+fn run(p: &Project, entry: &str) -> Option<Vec<String>> {
+  let mut heap = samlang_heap::Heap::new();
+  let c = front::check_project(&mut heap, p);
+  if c.errors.has_errors() { println!("rejected: {}", c.errors.errors().len()); return None; }
+  let e = front::mod_ref(&mut heap, entry);
+  let (t, _) = vcore::refint::run(&heap, &c.checked, e, &vcore::trace::Limits { max_steps: 20_000_000, max_depth: 4000, max_lines: 20_000 });
+  println!("ending {:?} ub {:?}", t.ending, t.ub);
+  Some(t.lines)
+}
 fn main() {
-  let seed: u64 = std::env::args().nth(1).and_then(|s| s.parse().ok()).unwrap_or(1);
-  let g = vcore::loopgen::generate(seed, true);
-  println!("# variant config:loop+inline (entry Main)\n//// module Main\n{}", g.project.modules[0].1);
-  eprintln!("{:?}", g.shapes);
+  let pseed = 19009u64;
+  let g = vcore::pgen::generate(pseed, &vcore::pgen::GenConfig::default_for(pseed));
+  let p = g.project.clone().with_std();
+  let a = run(&p, &g.entry).unwrap();
+  let mut p2 = p.clone();
+  for m in p2.modules.iter_mut() {
+    if m.0 == "gen.M1" {
+      let parsed = vcore::fmtcheck::parse(&m.1).unwrap();
+      let f = vcore::fmtcheck::format(&parsed, 100).unwrap();
+      std::fs::write("/tmp/w/M1.orig.sam", &m.1).unwrap();
+      std::fs::write("/tmp/w/M1.fmt.sam", &f).unwrap();
+      m.1 = f;
+    }
+  }
+  let b = run(&p2, &g.entry).unwrap();
+  for (i, (x, y)) in a.iter().zip(b.iter()).enumerate() { if x != y { println!("line {i}: {x} | {y}"); } }
+  println!("{} {}", a.len(), b.len());
 }
